@@ -32,6 +32,8 @@ func (e *uerr) Error() string { return fmt.Sprintf("unique-error-%d", e.id) }
 
 var errCtr int64
 
+var errForeign = errors.New("error of a caller, never appended to any scope")
+
 // ---- subjects -----------------------------------------------------------------------------------------
 
 type subject struct {
@@ -182,7 +184,14 @@ func hammer(r *sup.CaseResult, rng *rand.Rand, kind string, g, opsPer int) {
 						_ = s.parent.Err() // the parent of a shared child is asked while errors still arrive
 					}
 				case 6:
-					_ = len(s.ctx.Errors())
+					// a caller owns the list it was given: it extends it with an error of its own
+					// and wipes it afterwards – the scope's list must not notice
+					es := s.ctx.Errors()
+					runtime.Gosched()
+					es = append(es, errForeign)
+					for i := range es {
+						es[i] = nil
+					}
 				case 7:
 					select {
 					case <-s.ctx.Done():
@@ -280,6 +289,20 @@ func hammer(r *sup.CaseResult, rng *rand.Rand, kind string, g, opsPer int) {
 	}
 	// the done signal fires exactly once: a second receive on a closed channel also succeeds, a panic
 	// on double close was caught above; nothing more is observable here.
+	// errors that arrive while Close is already rolling back (a failing rollback listener) are
+	// appended errors like any other: Close must report them too
+	var lateMu sync.Mutex
+	var late []*uerr
+	if s.scp != nil && rng.Intn(2) == 0 {
+		ev := []int{app.BeforeRollbackEvent, app.RollbackEvent, app.AfterRollbackEvent}[rng.Intn(3)]
+		s.scp.On(ev, func(interface{}) error {
+			e := &uerr{id: atomic.AddInt64(&errCtr, 1)}
+			lateMu.Lock()
+			late = append(late, e)
+			lateMu.Unlock()
+			return e
+		})
+	}
 	if s.scp != nil {
 		werr := s.scp.Wait()
 		if (werr != nil) != wantErr {
@@ -299,6 +322,25 @@ func hammer(r *sup.CaseResult, rng *rand.Rand, kind string, g, opsPer int) {
 			r.Violate("close-result", fmt.Sprintf("[%s] Close()=%v although appended=%d kills=%d", kind, cerr, nAppended, nKill), wit)
 		}
 		reports("Close()", cerr)
+		lateMu.Lock()
+		lateErrs := append([]*uerr{}, late...)
+		lateMu.Unlock()
+		if len(lateErrs) > 0 {
+			r.AddObs("closes_with_a_failing_rollback_listener", 1)
+			got := map[*uerr]bool{}
+			collect(cerr, got, 0)
+			held := map[error]bool{}
+			for _, e := range s.ctx.Errors() {
+				held[e] = true
+			}
+			for _, e := range lateErrs {
+				if !held[e] {
+					r.Violate("errors-not-retained", fmt.Sprintf("[%s] the error returned by a rollback listener during Close is not in Errors()", kind), wit)
+				} else if !got[e] {
+					r.Violate("error-not-reported", fmt.Sprintf("[%s] Close() reports an error that lacks the error a rollback listener returned during this Close (Errors() holds it)", kind), wit)
+				}
+			}
+		}
 		if s.parent != nil {
 			parentFailed := s.parent.Err() != nil
 			if kind == "child-shared" && parentFailed != wantErr {
@@ -903,7 +945,7 @@ func main() {
 		ID:    "C12",
 		Level: "exploration",
 		Race:  true,
-		Rule: "hammer: 2…64 goroutines released together issue PRNG-chosen AppendError(unique)/Kill/Stop/IsDone/Err/Errors/Done on one plain context, isolated context, scope, shared child or isolated child (GOMAXPROCS 1/2/4/16) – no panic, every appended error retained exactly once (+ one context.Canceled per Kill), Err/Wait/Close report an error iff something was appended, Done closed, shared child fails its parent, isolated child does not; for isolated subjects in half of the trials another goroutine ends the parent (Kill/AppendError/Stop) meanwhile: judged once the watcher goroutine has returned – still every appended error retained, at most one extra context.Canceled, the parent holds exactly its own errors; " +
+		Rule: "hammer: 2…64 goroutines released together issue PRNG-chosen AppendError(unique)/Kill/Stop/IsDone/Err/Errors (the returned list is extended and wiped by the caller)/Done on one plain context, isolated context, scope, shared child or isolated child (GOMAXPROCS 1/2/4/16) – no panic, every appended error retained exactly once (+ one context.Canceled per Kill), Err/Wait/Close report an error iff something was appended, Done closed, shared child fails its parent, isolated child does not; half of the scopes carry a rollback listener that fails during Close – Close reports that error too; for isolated subjects in half of the trials another goroutine ends the parent (Kill/AppendError/Stop) meanwhile: judged once the watcher goroutine has returned – still every appended error retained, at most one extra context.Canceled, the parent holds exactly its own errors; " +
 			"observe: the scope is ended by 1…3 concurrent Kill/AppendError calls only, 1…3 observers react to the done signal (tight IsDone loop, <-Done(), IsDone with yields) and read Err()/Errors(); scopes also with a task that leaves on Done() and a Wait() released by it – an error must be there; " +
 			"child: goroutines create and close children of a scope while another goroutine ends it, then after its end – no panic, parent.Wait() returns, parent closes; cmd: terminal commands (termexec.RunCommand through the real terminal service) issued on an IO context whose scope is being killed. The race detector decides for contextscope/*, scope/scope.go, scope/child.go. distinct = distinct (subject, goroutine count, plan)",
 		Assumptions: []string{
@@ -960,7 +1002,7 @@ func main() {
 			}
 		},
 		Finish: func(t *sup.Totals) string {
-			for _, k := range []string{"observer_trials", "observations_after_the_done_signal", "waits_released_by_the_done_signal", "parent_end_trials_kill", "parent_end_trials_append", "parent_end_trials_stop", "isolated_killed_by_its_watcher"} {
+			for _, k := range []string{"observer_trials", "observations_after_the_done_signal", "waits_released_by_the_done_signal", "parent_end_trials_kill", "parent_end_trials_append", "parent_end_trials_stop", "isolated_killed_by_its_watcher", "closes_with_a_failing_rollback_listener"} {
 				if t.Obs[k] == 0 {
 					return "monitor observed nothing for " + k
 				}
